@@ -84,6 +84,7 @@ TABLE: List[Entry] = [
     ("R-INIT-COHERENCE", None, "accumulates", {"C13", "C15"}),
     ("R-INIT-COHERENCE", None, "sort-", {"C13", "C15"}),
     ("R-INIT-COHERENCE", None, "missing", {"C13", "C15"}),
+    ("R-INIT-COHERENCE", None, "triggers-shape", {"C13", "C15"}),  # a table accumulated with |= over uninitialised memory depends on the history of the process
     ("R-INIT-COHERENCE", None, None, {"C13"}),
     # ---- wake-up primitive ---------------------------------------------------------------------------------
     ("R-WAKEUP", None, None, {"C01", "C02", "C08"}),
